@@ -671,6 +671,18 @@ func (m *StateMachine) sendInitialActionSet(ctx context.Context) (
 		)
 	}
 
+	// The stored position can lag by more than one height:
+	// a start that took the branch above does not record the new height until its next round change,
+	// so after a second stop in that window the following heights may be finalized as well.
+	// Skip every height that already has a finalization, instead of finalizing one a second time.
+	for {
+		if _, _, _, _, err := m.fStore.LoadFinalizationByHeight(ctx, h); err != nil {
+			break
+		}
+		h++
+		r = 0
+	}
+
 	initRE := tmeil.StateMachineRoundEntrance{
 		H: h, R: r,
 
